@@ -153,6 +153,9 @@ def run_property(mod, tier, seed, replay=None):
         lines = lines + extra; model += em; checked += ec; release += er
         dis = core.compare(lines, model, checked, release) if ok_model else dis
 
+    if hasattr(mod, "model_assumption_broken"):
+        broken_obligations += mod.model_assumption_broken()
+
     # 5. verdicts
     kf = core.known_findings()
     def is_known(key):
